@@ -329,7 +329,8 @@ func (o *SendLargeFileOptions) Validate() error {
 	if len(o.IDs) == 0 {
 		return ErrNoWorkloadIDs
 	}
-	if len(o.Chunk) == 0 {
+	// only the single chunk of an empty file may be empty
+	if len(o.Chunk) == 0 && o.Size != 0 {
 		return ErrNoFilesToSend
 	}
 	if o.UID == 0 && o.GID == 0 && o.Mode == 0 {
